@@ -15,10 +15,15 @@ import (
 	"time"
 
 	corev1 "k8s.io/api/core/v1"
+	resourceapi "k8s.io/api/resource/v1"
 	metav1 "k8s.io/apimachinery/pkg/apis/meta/v1"
 	k8sruntime "k8s.io/apimachinery/pkg/runtime"
+	"k8s.io/apimachinery/pkg/version"
+	featureutil "k8s.io/apiserver/pkg/util/feature"
+	fakediscovery "k8s.io/client-go/discovery/fake"
 	"k8s.io/client-go/kubernetes/fake"
 	k8stesting "k8s.io/client-go/testing"
+	k8sfeatures "k8s.io/kubernetes/pkg/features"
 
 	kaifake "github.com/NVIDIA/KAI-scheduler/pkg/apis/client/clientset/versioned/fake"
 	schedv1alpha2 "github.com/NVIDIA/KAI-scheduler/pkg/apis/scheduling/v1alpha2"
@@ -266,6 +271,7 @@ func buildConf(c Config) (*conf.SchedulerConfiguration, *conf.SchedulerParams) {
 	}
 	params := &conf.SchedulerParams{
 		SchedulerName:                     world.SchedulerName,
+		QueueLabelKey:                     world.QueueLabel, // the scheduler's default; only the DRA plugin reads it
 		PartitionParams:                   &conf.SchedulingNodePoolParams{NodePoolLabelKey: c.NodePoolKey, NodePoolLabelValue: c.NodePoolValue},
 		MaxNumberConsolidationPreemptees:  maxCons,
 		UseSchedulingSignatures:           c.Signatures,
@@ -305,7 +311,73 @@ func Materialise(w *world.World) (*fake.Clientset, *kaifake.Clientset) {
 	for _, o := range w.Topologies {
 		kaiobjs = append(kaiobjs, o.DeepCopy())
 	}
-	return fake.NewSimpleClientset(kobjs...), kaifake.NewSimpleClientset(kaiobjs...)
+	for _, o := range w.DeviceClasses {
+		kobjs = append(kobjs, o.DeepCopy())
+	}
+	for _, o := range w.ResourceSlices {
+		kobjs = append(kobjs, o.DeepCopy())
+	}
+	for _, o := range w.ResourceClaims {
+		kobjs = append(kobjs, o.DeepCopy())
+	}
+	kube := fake.NewSimpleClientset(kobjs...)
+	if w.HasDRA() {
+		// The scheduler's cache derives the process-global DynamicResourceAllocation feature gate from
+		// discovery on EVERY cache.New (featuregates.SetDRAFeatureGate): a server >= 1.26 that serves
+		// resource.k8s.io >= v1beta1 turns it on, anything else turns it off. The fake discovery of a
+		// world without DRA objects is left exactly as it always was (no parsable server version, no
+		// groups => gate off), so such worlds behave as before DRA support existed.
+		disc := kube.Discovery().(*fakediscovery.FakeDiscovery)
+		disc.FakedServerVersion = &version.Info{Major: "1", Minor: "34", GitVersion: "v1.34.0"}
+		kube.Resources = append(kube.Resources, &metav1.APIResourceList{
+			GroupVersion: resourceapi.SchemeGroupVersion.String(),
+			APIResources: []metav1.APIResource{
+				{Name: "resourceclaims", Namespaced: true, Kind: "ResourceClaim"},
+				{Name: "resourceslices", Kind: "ResourceSlice"},
+				{Name: "deviceclasses", Kind: "DeviceClass"},
+			}})
+	}
+	return kube, kaifake.NewSimpleClientset(kaiobjs...)
+}
+
+// DRAEnabled reports the current state of the process-global DRA feature gate (set by the last
+// cache.New from the discovery of the world it was given).
+func DRAEnabled() bool {
+	return featureutil.DefaultFeatureGate.Enabled(k8sfeatures.DynamicResourceAllocation)
+}
+
+// draSynced: the scheduler's DRA manager (claim assume-cache + allocated-device index, both fed by
+// informer event handlers, i.e. later than the informers' own HasSynced) shows every claim and
+// every allocated device of the world.
+func draSynced(w *world.World, c cache.Cache) bool {
+	plugins := c.InternalK8sPlugins()
+	if plugins == nil || plugins.FrameworkHandle == nil {
+		return true
+	}
+	mgr := plugins.FrameworkHandle.SharedDRAManager()
+	if mgr == nil {
+		return true
+	}
+	claims, err := mgr.ResourceClaims().List()
+	if err != nil || len(claims) != len(w.ResourceClaims) {
+		return false
+	}
+	want := 0
+	for _, cl := range w.ResourceClaims {
+		if cl.Status.Allocation != nil {
+			want += len(cl.Status.Allocation.Devices.Results)
+		}
+	}
+	devs, err := mgr.ResourceClaims().ListAllAllocatedDevices()
+	if err != nil || devs.Len() != want {
+		return false
+	}
+	slices, err := mgr.ResourceSlices().ListWithDeviceTaintRules()
+	if err != nil || len(slices) != len(w.ResourceSlices) {
+		return false
+	}
+	classes, err := mgr.DeviceClasses().List()
+	return err == nil && len(classes) == len(w.DeviceClasses)
 }
 
 type waiter interface {
@@ -428,6 +500,20 @@ func RunCycle(w *world.World, c Config, obs Observer) (res *Result, err error) {
 		}
 		if time.Since(start) > 10*time.Minute {
 			return nil, fmt.Errorf("harness: informers did not sync")
+		}
+	}
+	if DRAEnabled() != w.HasDRA() {
+		return nil, fmt.Errorf("harness: DRA feature gate is %v but the world has DRA objects: %v", DRAEnabled(), w.HasDRA())
+	}
+	if w.HasDRA() {
+		for i := 0; !draSynced(w, real); i++ {
+			runtime.Gosched()
+			if i > 1000 {
+				time.Sleep(50 * time.Microsecond)
+			}
+			if time.Since(start) > 10*time.Minute {
+				return nil, fmt.Errorf("harness: the scheduler's DRA manager did not sync")
+			}
 		}
 	}
 
@@ -561,5 +647,35 @@ func ReadBack(w *world.World, kube *fake.Clientset, kai *kaifake.Clientset) (*wo
 		out.BindRequests = append(out.BindRequests, b.DeepCopy())
 	}
 	sort.Slice(out.BindRequests, func(i, j int) bool { return out.BindRequests[i].Name < out.BindRequests[j].Name })
+	if w.HasDRA() {
+		claims, err := kube.ResourceV1().ResourceClaims("").List(ctx, metav1.ListOptions{})
+		if err != nil {
+			return nil, err
+		}
+		for i := range claims.Items {
+			c := claims.Items[i].DeepCopy()
+			c.TypeMeta = metav1.TypeMeta{APIVersion: resourceapi.SchemeGroupVersion.String(), Kind: "ResourceClaim"}
+			out.ResourceClaims = append(out.ResourceClaims, c)
+		}
+		slices, err := kube.ResourceV1().ResourceSlices().List(ctx, metav1.ListOptions{})
+		if err != nil {
+			return nil, err
+		}
+		for i := range slices.Items {
+			c := slices.Items[i].DeepCopy()
+			c.TypeMeta = metav1.TypeMeta{APIVersion: resourceapi.SchemeGroupVersion.String(), Kind: "ResourceSlice"}
+			out.ResourceSlices = append(out.ResourceSlices, c)
+		}
+		classes, err := kube.ResourceV1().DeviceClasses().List(ctx, metav1.ListOptions{})
+		if err != nil {
+			return nil, err
+		}
+		for i := range classes.Items {
+			c := classes.Items[i].DeepCopy()
+			c.TypeMeta = metav1.TypeMeta{APIVersion: resourceapi.SchemeGroupVersion.String(), Kind: "DeviceClass"}
+			out.DeviceClasses = append(out.DeviceClasses, c)
+		}
+		out.SortDRA()
+	}
 	return out, nil
 }
